@@ -39,6 +39,24 @@ def Options.elisp : Options :=
   { keyword := .colonPrefix, nil := .symbol, bool := .symbol, vector := .brackets,
     bytes := .elisp, string := .elisp, char := .elisp }
 
+/-- The builder API of `print::Options`: every `with_*` setter assigns exactly its own field. -/
+inductive Setter where
+  | keyword (k : KeywordSyntax) | nil (n : NilSyntax) | bool (b : BoolSyntax) | vector (v : VectorSyntax)
+  | bytes (y : BytesSyntax) | string (s : StringSyntax) | char (c : CharSyntax)
+  deriving DecidableEq, Repr
+
+def Options.set (o : Options) : Setter → Options
+  | .keyword k => { o with keyword := k }
+  | .nil n => { o with nil := n }
+  | .bool b => { o with bool := b }
+  | .vector v => { o with vector := v }
+  | .bytes y => { o with bytes := y }
+  | .string s => { o with string := s }
+  | .char c => { o with char := c }
+
+/-- a chain of builder calls, applied left to right -/
+def Options.build (start : Options) (ops : List Setter) : Options := ops.foldl Options.set start
+
 /-- All 576 printer option sets. -/
 def Options.all : List Options := Id.run do
   let mut out := []
@@ -89,6 +107,35 @@ def Options.keyword (o : Options) : KeywordSyntax → Bool
   | .colonPrefix => o.kwPrefix
   | .colonPostfix => o.kwPostfix
   | .octothorpe => o.kwOctothorpe
+
+/-- The builder API of `parse::Options`.  `with_keyword_syntax` ADDS one spelling to the enabled set
+    (`|=` on the flag byte), `with_keyword_syntaxes` REPLACES the set by the given ones (a fold from
+    0); every other setter assigns exactly its own field. -/
+inductive Setter where
+  | addKeyword (k : KeywordSyntax) | setKeywords (ks : List KeywordSyntax)
+  | nil (n : NilSymbol) | t (t : TSymbol) | brackets (b : Brackets) | string (s : StringSyntax)
+  | char (c : CharSyntax) | racket (b : Bool) | leadingDigit (b : Bool)
+  deriving DecidableEq, Repr
+
+def Options.addKeyword (o : Options) : KeywordSyntax → Options
+  | .colonPrefix => { o with kwPrefix := true }
+  | .colonPostfix => { o with kwPostfix := true }
+  | .octothorpe => { o with kwOctothorpe := true }
+
+def Options.set (o : Options) : Setter → Options
+  | .addKeyword k => o.addKeyword k
+  | .setKeywords ks =>
+    ks.foldl Options.addKeyword { o with kwPrefix := false, kwPostfix := false, kwOctothorpe := false }
+  | .nil n => { o with nil := n }
+  | .t t => { o with t := t }
+  | .brackets b => { o with brackets := b }
+  | .string s => { o with string := s }
+  | .char c => { o with char := c }
+  | .racket b => { o with racket := b }
+  | .leadingDigit b => { o with leadingDigit := b }
+
+/-- a chain of builder calls, applied left to right -/
+def Options.build (start : Options) (ops : List Setter) : Options := ops.foldl Options.set start
 end Parse
 
 end Lexpr
